@@ -12,7 +12,9 @@ From RopeVerif.C10 Require Import FsModel Change Runner.
 From RopeVerif.C11 Require Import History.
 
 Record ostep := {
+  t_reopen : bool;                 (* the step is: close the project (save_history on) and open it again *)
   t_setlim : option nat;           (* Some n: the step is "prefs max_history_items := n" (t_op is not looked at) *)
+  t_stop : option nat;             (* Some j: TaskHandle.stop() is called during the j-th observer notification *)
   t_op : op;
   o_raised : bool;
   o_err : list N;                  (* exception chain, class codes of C10.Runner; 50 = ValueError *)
@@ -66,13 +68,17 @@ Definition cmp1 (r : sres) (o : ostep) : N :=
 
 (* 0 = the model agrees with the observation at every step; otherwise 64 * (1 + index of the first
    disagreeing step) + its mismatch bits *)
+(* what C11_reopen says comes back from History.write + _load_history *)
+Definition reopened (s : hist) : hist := Hist (h_fs s) (trim (h_limit s) (h_undo s)) (h_redo s) (h_limit s).
+
 Fixpoint walk (bp : bool) (v : variant) (ign : list N -> bool) (i : N) (l : list ostep) (s : hist) : N :=
   match l with
   | [] => 0%N
   | o :: rest =>
-      let r := match t_setlim o with
+      let r := if t_reopen o then SOk (reopened s) quiet [] else
+               match t_setlim o with
                | Some n => SOk (set_limit n s) quiet []
-               | None => hstep bp v fuel ign (t_op o) s quiet
+               | None => hstep bp v fuel ign (t_op o) s (Sched None (t_stop o) false false)
                end in
       let w := cmp1 r o in
       if N.eqb w 0 then walk bp v ign (i + 1)%N rest (sres_state r)
@@ -142,9 +148,15 @@ Fixpoint dom_walk (bp : bool) (v : variant) (ign : list N -> bool) (l : list ost
   match l with
   | [] => []
   | o :: rest =>
+      if t_reopen o then dom_walk bp v ign rest (reopened s) else
       match t_setlim o with
       | Some n => dom_walk bp v ign rest (set_limit n s)
-      | None => let '(w, s') := dom1 bp v ign (t_op o) s in w :: dom_walk bp v ign rest s'
+      | None =>
+          match t_stop o with
+          | Some _ => dom_walk bp v ign rest
+                        (sres_state (hstep bp v fuel ign (t_op o) s (Sched None (t_stop o) false false)))
+          | None => let '(w, s') := dom1 bp v ign (t_op o) s in w :: dom_walk bp v ign rest s'
+          end
       end
   end.
 
